@@ -35,6 +35,10 @@ var c08Sites = []hsite{
 	{line: "a <<\"E\"\n", ops: []string{"<<"}, delims: []string{"E"}, quoted: []bool{true}},
 	{line: "a <<E'F'\n", ops: []string{"<<"}, delims: []string{"EF"}, quoted: []bool{true}},
 	{line: "a <<E; b <<-F\n", ops: []string{"<<", "<<-"}, delims: []string{"E", "F"}, quoted: []bool{false, false}},
+	{line: "a <<E &&\n", ops: []string{"<<"}, delims: []string{"E"}, quoted: []bool{false}, tail: "b\n"},
+	{line: "a <<E | # c\n", ops: []string{"<<"}, delims: []string{"E"}, quoted: []bool{false}, tail: "\nb\n"},
+	{line: "a <<'E' || b <<E |\n", ops: []string{"<<", "<<"}, delims: []string{"E", "E"}, quoted: []bool{true, false}, tail: "c\n"},
+	{line: "case x in a) b <<E;;\n", ops: []string{"<<"}, delims: []string{"E"}, quoted: []bool{false}, tail: "esac\n"},
 	{line: "a <<-E <<E\n", ops: []string{"<<-", "<<"}, delims: []string{"E", "E"}, quoted: []bool{false, false}},
 	{line: "a <<-E; b <<'E'\n", ops: []string{"<<-", "<<"}, delims: []string{"E", "E"}, quoted: []bool{false, true}},
 	{line: "a <<E <<'F'\n", ops: []string{"<<", "<<"}, delims: []string{"E", "F"}, quoted: []bool{false, true}},
